@@ -303,3 +303,27 @@ Proof.
   induction 1 as [|r t Hr _ IH]; [reflexivity|]. cbn [total fold_right length]. fold (total w_7bit t).
   rewrite IH. unfold w_7bit. rewrite Hr. lia.
 Qed.
+
+Theorem width_sound_all :
+  width_sound wd_ascii w_1byte /\ width_sound wd_latin1 w_1byte /\ width_sound wd_cyrillic w_1byte /\
+  width_sound wd_hebrew w_1byte /\ width_sound wd_shiftjis w_multibyte /\ width_sound wd_euckr w_multibyte /\
+  width_sound wd_ucs2 w_utf16 /\ width_sound wd_eucjp (w_measured wd_eucjp).
+Proof.
+  exact (conj width_sound_ascii (conj width_sound_latin1 (conj width_sound_cyrillic (conj width_sound_hebrew
+        (conj width_sound_shiftjis (conj width_sound_euckr (conj width_sound_ucs2 width_sound_eucjp))))))).
+Qed.
+
+Theorem no_esize_all ref t :
+  compose_gsm7 ref t <> Err ESize /\
+  compose_len w_1byte (enc_len_stateless wd_ascii) ref t <> Err ESize /\
+  compose_len w_1byte (enc_len_stateless wd_latin1) ref t <> Err ESize /\
+  compose_len w_1byte (enc_len_stateless wd_cyrillic) ref t <> Err ESize /\
+  compose_len w_1byte (enc_len_stateless wd_hebrew) ref t <> Err ESize /\
+  compose_len w_multibyte (enc_len_stateless wd_shiftjis) ref t <> Err ESize /\
+  compose_len w_multibyte (enc_len_stateless wd_euckr) ref t <> Err ESize /\
+  compose_len w_utf16 (enc_len_stateless wd_ucs2) ref t <> Err ESize /\
+  compose_len (w_measured wd_eucjp) (enc_len_stateless wd_eucjp) ref t <> Err ESize.
+Proof.
+  exact (conj (no_esize_gsm7 ref t) (conj (no_esize_ascii ref t) (conj (no_esize_latin1 ref t) (conj (no_esize_cyrillic ref t)
+        (conj (no_esize_hebrew ref t) (conj (no_esize_shiftjis ref t) (conj (no_esize_euckr ref t) (conj (no_esize_ucs2 ref t) (no_esize_eucjp ref t))))))))).
+Qed.
